@@ -7,6 +7,7 @@ import CaddyModel.C15.Caddyfile
 import CaddyModel.C15.Pool
 import CaddyModel.C15.Proxy
 import CaddyModel.C15.Recorder
+import CaddyModel.C15.Sidecar
 
 set_option linter.unusedSimpArgs false
 set_option linter.unusedVariables false
@@ -2225,5 +2226,46 @@ theorem recorderOps_bytes (sb : Nat → Bool) (ops : List (Op Bytes)) :
   obtain ⟨a, b⟩ := recAcc_foldl sb ops RecSt.init (Or.inl rfl)
   rw [recFinish_bytes sb _ b, a]
   simp [recAcc, RecSt.init, writtenBytes_eq]
+
+end CaddyModel.C15
+
+/-! ## file_server's sidecar loop -/
+namespace CaddyModel.C15
+
+theorem sidecarLoop_spec (configured : Bytes → Bool) (state : Bytes → SideState) (etagFails : Bool) :
+    ∀ (accepted : List Bytes) (ce0 ce : Option Bytes) (opened : Option Served),
+      sidecarLoop false configured state etagFails accepted ce0 = .inl (ce, opened) →
+      (opened = none ∧ ce = ce0) ∨
+        ∃ c, opened = some (.sidecar c) ∧ ce = some c ∧ c ∈ accepted ∧ configured c = true ∧ state c = .ok
+  | [], ce0, ce, opened, h => by
+    simp only [sidecarLoop, Sum.inl.injEq, Prod.mk.injEq] at h
+    exact Or.inl ⟨h.2.symm, h.1.symm⟩
+  | ae :: rest, ce0, ce, opened, h => by
+    unfold sidecarLoop at h
+    by_cases hc : configured ae = true
+    · simp only [hc, Bool.not_true, Bool.false_eq_true, if_false] at h
+      cases hs : state ae with
+      | absent =>
+        rw [hs] at h
+        rcases sidecarLoop_spec configured state etagFails rest ce0 ce opened h with r | ⟨c, a, b, m, d, e⟩
+        · exact Or.inl r
+        · exact Or.inr ⟨c, a, b, List.mem_cons_of_mem _ m, d, e⟩
+      | openRefused =>
+        rw [hs] at h
+        simp only [Bool.false_eq_true, if_false] at h
+        rcases sidecarLoop_spec configured state etagFails rest ce0 ce opened h with r | ⟨c, a, b, m, d, e⟩
+        · exact Or.inl r
+        · exact Or.inr ⟨c, a, b, List.mem_cons_of_mem _ m, d, e⟩
+      | openFatal => rw [hs] at h; simp at h
+      | ok =>
+        rw [hs] at h
+        by_cases he : etagFails = true
+        · simp [he] at h
+        · simp only [he, Bool.false_eq_true, if_false, Sum.inl.injEq, Prod.mk.injEq] at h
+          exact Or.inr ⟨ae, h.2.symm, h.1.symm, List.mem_cons_self, hc, hs⟩
+    · simp only [hc, Bool.not_false, if_true] at h
+      rcases sidecarLoop_spec configured state etagFails rest ce0 ce opened h with r | ⟨c, a, b, m, d, e⟩
+      · exact Or.inl r
+      · exact Or.inr ⟨c, a, b, List.mem_cons_of_mem _ m, d, e⟩
 
 end CaddyModel.C15
